@@ -44,7 +44,9 @@ def _fmt_acc(a):
                                              a["held"], " prepub" if a["prepub"] else "", a["at"])
 
 
-def lockset_static(relfile, typename, scope_fns, ignore_fields=(), label=None, mutex="-", auto_spawned=True):
+def lockset_static(relfile, typename, scope_fns, ignore_fields=(), label=None, mutex="-", auto_spawned=True, optional_fns=()):
+    """scope_fns: exported entry points that must exist; optional_fns: internal functions that belong to the scope when
+    they exist (a rename or inlining of those must not fail the obligation); methods started with `go` are added."""
     label = label or typename
     key = "lockset_" + typename
 
@@ -58,7 +60,9 @@ def lockset_static(relfile, typename, scope_fns, ignore_fields=(), label=None, m
                            {"broken": broken, "glbfacts": out[-2000:]})], cov
         hdr, accs = parse_table(out)
         spawned = [x.strip() for s in hdr.get("spawned", []) for x in s.split(",") if x.strip()]
+        fns_all = {x.strip() for s in hdr.get("functions", []) for x in s.split(",") if x.strip()} | {a["fn"] for a in accs}
         scope = list(scope_fns) + [s for s in spawned if auto_spawned and s not in scope_fns]
+        scope += [f for f in optional_fns if f in fns_all and f not in scope]
         in_scope = [a for a in accs if a["fn"] in scope and a["loc"] not in ignore_fields]
         c.update({"scope": scope, "fields": hdr.get("fields", []), "skipped_fields": hdr.get("skipped", []),
                   "accesses_extracted": len(accs), "accesses_in_scope": len(in_scope),
@@ -125,13 +129,16 @@ def lockset_static(relfile, typename, scope_fns, ignore_fields=(), label=None, m
 # ---- ready-made instances --------------------------------------------------------------------
 # C12: Add / Remove / Contains of one IPv4Filter run concurrently.
 C12_FACTS = lockset_static("util/netutil/filter.go", "IPv4Filter", ["Add", "Remove", "Contains"], label="IPv4Filter (C12)")
-# C14: the lane's own goroutines against Status / ShortestQueueIndex / PushTask callers. SetTimeout is configuration
+# C14: the lane's own goroutines (whatever New starts with `go`: derived from the source, names do not matter) against the
+# exported Status / ShortestQueueIndex / PushTask / Wait. SetTimeout is configuration
 # (unguarded write of `timeout`), outside every property's concurrent scope.
 C14_FACTS = lockset_static("tasklane/tasklane.go", "TaskLane",
-                           ["Status", "ShortestQueueIndex", "PushTask", "startQueue", "startWorker"], label="TaskLane (C14)")
+                           ["Status", "ShortestQueueIndex", "PushTask", "Wait"], label="TaskLane (C14)")
 # C05: concurrent requests only (ServeHTTP, and the pool's constructor closure it may run); registrations
 # (Handle / HandleRelay / HandleNoRoute) do not overlap requests in C05's quantifier.
-C05_FACTS = lockset_static("httpd/httpd.go", "Mux", ["ServeHTTP", "newStoreWith"], label="Mux (C05)")
+# Own methods ServeHTTP calls are inlined into it by the extractor; the sync.Pool constructor closure is created in NewMux
+# (directly or through a helper such as newStoreWith): NewMux's other accesses are pre-publication and do not count.
+C05_FACTS = lockset_static("httpd/httpd.go", "Mux", ["ServeHTTP"], optional_fns=["NewMux", "newStoreWith"], label="Mux (C05)")
 
 
 # ---- C20 ---------------------------------------------------------------------------------------
